@@ -42,7 +42,7 @@ def run(ck):
                       ('R3.5', 'integer literals outside i64 are rejected'),
                       ('R3.6', 'translatable marking follows qsTr; notr marks exactly the bare strings'),
                       ('R3.7', 'the constant evaluator is conservative: anything it does not model is not a constant'),
-                      ('R3.9', 'string values are written through escaping XML constructors'),
+                      ('R3.9', 'string values are written through escaping XML constructors, as exactly Start, Text, End (an omitted Text lets the indenting writer put white space into the value)'),
                       ('R3.8', 'evaluated values map onto XML value kinds without changing the payload')):
         ck.rule(rid, text)
 
@@ -181,7 +181,7 @@ def run(ck):
     # ---- R3.4 casts ----------------------------------------------------------------------------------
     n_c = 0
     for fn in L.fn_list:
-        if not re.match(r'^(uigen::(expr|property|layout|gadget)|tir::(interpret|ceval|builder)|qmlast::astutil)::', fn['path']):
+        if not re.match(r'^<?(uigen::(expr|property|layout|gadget|xmlutil)|tir::(interpret|ceval|builder)|qmlast::astutil)::', fn['path']):
             continue
         if fn.get('x') in ('Clone', 'Debug', 'PartialEq'):
             continue
@@ -325,6 +325,29 @@ def run(ck):
             iff = next((n for n in walk(barm['body']) if n.get('k') == 'If'), None) if barm else None
             ok = iff is not None and [H.lit_value(v) for v in H.value_exprs(iff['then'])] == ['true'] and [H.lit_value(v) for v in H.value_exprs(iff['els'])] == ['false']
         ck.ob('R3.8', 'bool-spelling', ok, L.loc(m) if m else '', 'Bool(b) prints "true" / "false"')
+        # every other payload is printed as it is: one unguarded arm per variant group, `{}` of the bound payload, no width /
+        # precision / alternate spec, no conversion in between
+        if m is not None:
+            sites = H.format_sites_in_fn(sd)
+            for arm in m['arms']:
+                names = sorted({b['name'] for b in H.pat_bindings(arm['pat'])})
+                hids = {b['hid'] for b in H.pat_bindings(arm['pat'])}
+                mine = [s_ for s_ in sites if any(x is s_['node'] for x in walk(arm['body']))]
+                vs = sorted(set(re.findall(r'SimpleValue::(\w+)', pp(arm['pat']))))
+                okp = arm.get('guard') is None and len(mine) == 1
+                why = 'guarded arm' if arm.get('guard') is not None else '%d format sites' % len(mine)
+                if okp:
+                    st = mine[0]
+                    okp = len(st['pieces']) == 1 and st['pieces'][0][0] == 'arg' and st['pieces'][0][2] is None and len(st['args'] or []) == 1 and st['args'][0][0] == 'new_display'
+                    why = 'template %r' % (st['pieces'],)
+                    if okp and vs != ['Bool']:
+                        a0 = H.strip_refs(st['args'][0][1])
+                        while a0.get('k') == 'Unary' and a0.get('op') == 'Deref':
+                            a0 = H.strip_refs(a0['e'])
+                        okp = a0.get('k') == 'Path' and a0.get('hid') in hids
+                        why = 'prints `%s`' % pp(st['args'][0][1], maxlen=50)
+                ck.ob('R3.8', 'payload-printed-as-is|%s' % '+'.join(vs), okp, L.loc(arm['pat']),
+                      ('%s: `{}` of the payload %s' % ('/'.join(vs), names)) if okp else '%s does not print its payload as it is (%s): the text in the .ui is no longer the evaluated constant' % ('/'.join(vs), why), fn=sd['path'])
     pa = L.fn('uigen::expr::parse_as_value_type')
     if pa is not None:
         joins = [H.lit_value(c['args'][0]) for c in H.calls_in(pa['body']) if c.get('m') == 'join']
@@ -336,7 +359,7 @@ def run(ck):
 
     # ---- R3.9 the text that reaches the .ui is escaped, not pasted (shared with C09 R9.1) ------------------------------------
     import rules.c09 as c09
-    sh = _core.Shared(ck, 'R3.9', lambda r, k: r == 'R9.1' and any(k.startswith(p) for p in ('write_tagged_str|', 'SimpleValue::serialize_to_xml_as|', 'serialize_string_list_to_xml|')), 'C09:',
+    sh = _core.Shared(ck, 'R3.9', lambda r, k: (r == 'R9.1' and any(k.startswith(p) for p in ('write_tagged_str|', 'SimpleValue::serialize_to_xml_as|', 'serialize_string_list_to_xml|'))) or r == 'R9.2t', 'C09:',
                       ' [a string value written through a raw constructor is decoded differently by an XML parser]')
     c09.run(sh)
     ck.floor('R3.9', sh.count, 30, 'shared C09 R9.1 obligations on the three string writers')
